@@ -3,6 +3,8 @@ Driver code for the persistence operations (C09, C19).
 -/
 import SkaModel.Impl.Skf
 import SkaModel.Impl.Frame
+import SkaModel.Spec.SnappyFormat
+import SkaModel.Impl.Names
 import SkaModel.DriverBase
 import SkaModel.DriverHist
 
@@ -60,6 +62,42 @@ def runUnframe (c : Case) : String × String :=
     match unframe snappyDecompress (applyFault file tag) with
     | .ok bs => s!"{tag}:ok{fnv bs}"
     | .error _ => s!"{tag}:err")
+  (joinStr outs, "-")
+
+/-- C09, compression layer: a block written by the real compressor must be a
+well-formed element stream of the format that denotes the data (the hypothesis of
+`T09_snappy_block`), serialise back to itself, and decode to the data; damaged
+copies must decode (or fail) as the real block decoder does -/
+def runSnapblock (c : Case) : String × String :=
+  let blk := unhex (c.get "block")
+  let data := unhex (c.get "data")
+  let (n, used) := readVarint blk
+  let body := blk.drop used
+  let parsed := SnappyFormat.parseElems (body.length + 1) body
+  let (p, wf, den, ser) := match parsed with
+    | none => (false, false, false, false)
+    | some es =>
+      (true, n == data.length && decide (SnappyFormat.WFs data.length 0 es),
+       SnappyFormat.denote [] es == data, SnappyFormat.block n es == blk)
+  let kinds := match parsed with
+    | none => "-"
+    | some es =>
+      let cnt (f : SnappyFormat.SElem → Bool) := (es.filter f).length
+      s!"{cnt (fun e => match e with | .lit 0 _ => true | _ => false)}/{cnt (fun e => match e with | .lit (_ + 1) _ => true | _ => false)}/{cnt (fun e => match e with | .copy1 _ _ => true | _ => false)}/{cnt (fun e => match e with | .copy2 _ _ => true | _ => false)}/{cnt (fun e => match e with | .copy4 _ _ => true | _ => false)}"
+  let shw (r : Option (List UInt8)) : String := match r with | some bs => s!"ok{fnv bs}" | none => "err"
+  let muts := (c.list "faults").map (fun tag => s!"{tag}:{shw (snappyDecompress (applyFault blk tag))}")
+  (s!"parse={b2s p} wf={b2s wf} den={b2s den} ser={b2s ser} dec={shw (snappyDecompress blk)} kinds={kinds} muts={joinStr muts}", "-")
+
+/-- sample names of file arguments; hex of UTF-8 both ways -/
+def runNames (c : Case) : String × String :=
+  let outs := (c.list "files").map (fun h =>
+    let bs := unhex (if h.isEmpty then "." else h)
+    match String.fromUTF8? (ByteArray.mk bs.toArray) with
+    | none => "badutf8"
+    | some str =>
+      let nm := String.ofList (Names.sampleName str.toList)
+      let hx := hexOf nm.toUTF8.toList
+      if hx.isEmpty then "." else hx)
   (joinStr outs, "-")
 
 end SkaModel.Driver
